@@ -37,6 +37,7 @@ ASSUMPTIONS = [
 ]
 MIN_NONTRIVIAL = 300
 REQUIRED_COUNTERS = ["faults_planted", "paths_agree", "richtraceback_checked", "python_line_faults", "structural_faults"]
+RULE += " control structures left open inside a closed def / block / call."
 
 _st = {}
 
@@ -133,6 +134,10 @@ def faults(r, nl):
     add("closing-without-opening", "</%def>", "Syntax")
     add("mismatched-closing-tag", '<%def name="g()">x' + nl + "y</%block>", "Syntax", off=1, col="second-line-after-1")
     add("unterminated-control", "% if x:" + nl + "t" + nl, "Syntax", where="linestart", col="control")
+    # a control structure left open inside a tag that IS closed: reported where the structure begins
+    add("unterminated-control-in-def", '<%def name="uc_()">' + nl + "% if x:" + nl + "t" + nl + "</%def>", "Syntax", off=1, col="line-start")
+    add("unterminated-control-in-block", '<%block name="ucb_">' + nl + "text" + nl + "% for i_ in x:" + nl + "t" + nl + nl + "</%block>", "Syntax", off=2, col="line-start")
+    add("unterminated-control-in-call", '<%call expr="ucc_()">' + nl + "% while x:" + nl + "t" + nl + "</%call>", "Syntax", off=1, col="line-start")
     add("mismatched-end-keyword", "% if x:" + nl + "t" + nl + "% endfor" + nl, "Syntax", off=2, where="linestart", col="control")
     add("end-without-start", "% endif" + nl, "Syntax", where="linestart", col="control")
     add("illegal-ternary", "% for i in z:" + nl + "t" + nl + "% elif q:" + nl + "% endfor" + nl, "Syntax", off=2, where="linestart", col="control")
